@@ -116,7 +116,7 @@ def main():
     hist = [{"t": "net", "a": a_} for a_ in ("N1", "N3", "N5", "R1", "R2")] + [{"t": "miner", "a": a_} for a_ in ("M1", "M4", "M5", "M6", "M7", "M8")]
     good_h = {"id": 1, "hist": hist, "feasible": True, "errors": [],
               "out": {"x_on_disk": False, "b_on_disk": True, "x_served": False, "b_served": True, "b_bcast": True, "x_bcast": False, "buffer": 0}}
-    hc = {"XValid": False, "XValidated": True, "MinerOn": True, "SaveAfterValidation": True, "SelectiveClear": True, "AtomicRollback": True, "MinerHandOverValidated": True}
+    hc = {"XValid": False, "XValidated": True, "MinerOn": True, "SaveAfterValidation": True, "SelectiveClear": True, "AtomicRollback": True, "MinerHandOverValidated": True, "SaveBeforePublish": True}
 
     def h_run(t):
         vv_, rr_ = tracecheck.run("TraceHandover", [t], hc, ids=[1])
